@@ -107,6 +107,8 @@ func descDefault(e schema.Expr) string {
 		switch {
 		case strings.HasPrefix(n, "s:"):
 			return "v:" + n[2:]
+		case v == "":
+			return "v:" + x.V // a bare literal of blanks only (string default evaluated from HCL)
 		case strings.EqualFold(v, "true") || strings.EqualFold(v, "false"):
 			return "v:" + strings.ToLower(v)
 		case len(v) > 2 && (v[0] == 'x' || v[0] == 'X') && v[1] == '\'':
@@ -115,7 +117,7 @@ func descDefault(e schema.Expr) string {
 		if f, err := strconv.ParseFloat(v, 64); err == nil {
 			return "v:" + strconv.FormatFloat(f, 'g', -1, 64)
 		}
-		return "v:" + v
+		return "v:" + x.V // bare string content, white space included
 	case *schema.RawExpr:
 		n := normDefault(x.X)
 		if strings.HasPrefix(n, "s:") {
